@@ -6,7 +6,8 @@ from gen import ribcommon as R
 class Prop:
     pid = 'C02'
     props_file = 'Props/C02.v'
-    required_theorems = []
+    required_theorems = ['cmp_code_refines_spec', 'hops_code_refines_spec', 'decision_order_total_preorder', 'dest_sorted_reachable',
+                         'best_eligible_maximal', 'ranking_order_independent', 'limited_and_ecmp_are_prefixes', 'ecmp_code_refines_spec']
     extra_targets = ['Model/Rib.vo']
     correspondence_name = 'Model/Rib.v step vs rustybgp_table::Table (harness/hx-rib)'
     rule = ('histories of insert/replace/remove/drop/stale marks/purges/next-hop flips over 3 prefixes, 3 peers (each with a restarted '
